@@ -2,6 +2,7 @@
 package main
 
 import (
+	"bytes"
 	"context"
 	"fmt"
 	"math"
@@ -336,6 +337,14 @@ func (g *builder) stakingSpec(method, v string) spec {
 	if v == "to-vault" {
 		from = sAcct + 2 + r.Intn(3)
 	}
+	// the address of the vault that account a (0..2) would create with its next transaction
+	nextVault := func() staking.Address {
+		creator := w.addrOf(sAcct + g.pickArg(3))
+		return vault.NewVaultAddress(creator, g.acct(creator).General.Nonce+1)
+	}
+	if v == "to-next-vault" {
+		from = sAcct + 3 + r.Intn(numAccounts-3)
+	}
 	bal := qU64(&g.acct(w.addrOf(from)).General.Balance)
 	amt := q(uint64(10 + r.Intn(3000)))
 	switch method {
@@ -348,6 +357,8 @@ func (g *builder) stakingSpec(method, v string) spec {
 			b.Amount = q(bal + 1 + uint64(r.Intn(1000)))
 		case "to-self":
 			b.To = w.addrOf(from)
+		case "to-next-vault":
+			b.To = nextVault()
 		case "to-vault":
 			if vs := g.vaults(); len(vs) > 0 {
 				i := g.pickArg(len(vs))
@@ -377,6 +388,8 @@ func (g *builder) stakingSpec(method, v string) spec {
 			b.Amount = q(bal + 1)
 		case "to-account":
 			b.Account = g.acctAddr(r.Intn(numAccounts))
+		case "to-next-vault":
+			b.Account = nextVault()
 		}
 		return spec{body: b, signer: from}
 	case "staking.ReclaimEscrow":
@@ -1415,6 +1428,27 @@ func (g *builder) beaconSpec(method, v string) spec {
 			if len(b.Pi) > 4 {
 				b.Pi = append([]byte{}, b.Pi...)
 				b.Pi[3] ^= 0x20
+			}
+		case "off-curve":
+			// right length, gamma is not the encoding of a curve point
+			b.Pi = bytes.Repeat([]byte{0xff}, 80)
+			if r.Intn(2) == 0 && len(b.Pi) == 80 {
+				b.Pi[0] = 2
+				for i := 1; i < 32; i++ {
+					b.Pi[i] = 0
+				}
+			}
+		case "bad-scalar":
+			// valid gamma and c, non-canonical s
+			if len(b.Pi) == 80 {
+				b.Pi = append([]byte{}, b.Pi...)
+				for i := 48; i < 80; i++ {
+					b.Pi[i] = 0xff
+				}
+			}
+		case "short":
+			if len(b.Pi) > 1 {
+				b.Pi = b.Pi[:len(b.Pi)-1-r.Intn(len(b.Pi)-1)]
 			}
 		case "not-node":
 			signer = sAcct + r.Intn(numAccounts)
